@@ -49,8 +49,10 @@ SGX_ALTER = ["env:quote", "env:quote-report-data", "env:signature", "env:att-key
 
 def shards(tier, seed):
     if tier == "quick":
-        return [{"seed": seed * 1000 + i, "n": 1} for i in range(16)]
-    return [{"seed": seed * 1000 + i, "n": 100} for i in range(32)]
+        return [{"seed": seed * 1000 + i, "python_O": i % 3 == 2,
+                 "n": 1} for i in range(16)]
+    return [{"seed": seed * 1000 + i, "python_O": i % 3 == 2,
+                 "n": 100} for i in range(32)]
 
 
 def gen_ud(rng, acc):
